@@ -161,6 +161,19 @@ func checkMedian(r *mc.Run, vals []int64) {
 	if !sameMultiset(ds, vals) {
 		r.Fail("median", "median-slice-not-permutation", fmt.Sprintf("slice after call %v", ds), in)
 	}
+	// measurement variant, every input carrying an error of its own
+	ms := make([]measurements.Measurement, len(vals))
+	for i, x := range vals {
+		ms[i] = measurements.Measurement{Offset: time.Duration(x), Timestamp: time.Unix(1000+int64(i%3), 0), Error: fmt.Errorf("e%d", i)}
+	}
+	m := measurements.Median(ms)
+	r.Evals++
+	if int64(m.Offset) != got {
+		r.Fail("median", "median-measurement-differs", fmt.Sprintf("measurements.Median(%v).Offset=%d, durations give %d", vals, m.Offset, got), in)
+	}
+	if m.Error != nil {
+		r.Fail("median", "median-measurement-error-not-nil", fmt.Sprintf("Error=%v for %v", m.Error, vals), in)
+	}
 }
 
 // checkPerms: every distinct permutation gives the same result, for both
@@ -232,7 +245,8 @@ func checkPerms(r *mc.Run, vals []int64, stamps []int64) {
 		}
 		for variant := 0; variant < 2; variant++ {
 			for i, k := range p {
-				ms[i] = measurements.Measurement{Offset: time.Duration(base[k].off), Timestamp: mk(base[k].ts)}
+				// inputs carry an error of their own: the combined result never does
+				ms[i] = measurements.Measurement{Offset: time.Duration(base[k].off), Timestamp: mk(base[k].ts), Error: fmt.Errorf("input %d", k)}
 			}
 			var m measurements.Measurement
 			var a, b int64
